@@ -446,6 +446,11 @@ func (ps *pathState) concretize(t *sym.Term, what string) uint64 {
 	var excl []*sym.Term
 	for {
 		res, v := ps.valueOf(t, excl...)
+		for retry := 0; res == solver.Unknown && retry < 3; retry++ {
+			// usually a timeout under load (or a solver that had to be
+			// restarted): the query is cheap, ask again
+			res, v = ps.valueOf(t, excl...)
+		}
 		if res == solver.Unsat {
 			break
 		}
